@@ -5,11 +5,14 @@ pub mod c01;
 pub mod c03;
 pub mod c04;
 pub mod c06;
+pub mod c09;
 pub mod c10;
 pub mod c11;
 pub mod c12;
 pub mod c13;
+pub mod c14;
 pub mod c17;
+pub mod c18;
 pub mod c19;
 pub mod c20;
 
@@ -23,11 +26,14 @@ pub fn replay(id: &str, file: &str) -> i32 {
         "C04" => c04::replay_c04(&mut run, f),
         "C05" => c04::replay_c05(&mut run, f),
         "C06" => c06::replay(&mut run, f),
+        "C09" => c09::replay(&mut run, f),
         "C10" => c10::replay(&mut run, f),
         "C11" => c11::replay(&mut run, f),
         "C12" => c12::replay(&mut run, f),
         "C13" => c13::replay(&mut run, f),
+        "C14" => c14::replay(&mut run, f),
         "C17" => c17::replay(&mut run, f),
+        "C18" => c18::replay(&mut run, f),
         "C19" => c19::replay(&mut run, f),
         "C20" => c20::replay(&mut run, f),
         _ => None,
